@@ -378,9 +378,9 @@ def observe(fn):
             ap = bytes(apci.to_knx()).hex()
         except Exception as e:  # noqa: BLE001
             return f"unser:{type(e).__name__} {pr[:60]}"
-        # what is on the wire must read back as what was accepted (the empty DPTArray is the one ambiguous payload)
+        # what is on the wire must read back as what was accepted
         back = CEMILData.from_knx(raw).payload
-        if type(back) is not type(apci) or (back.value != apci.value and not (isinstance(apci.value, DPTArray) and not apci.value.value)):
+        if type(back) is not type(apci) or back.value != apci.value:
             return f"unfaithful {pr[:60]} -> {render_payload(back.value)[:60]}"
         outs.append(f"{pr} {ap}")
     return "ok " + " ".join(outs)
